@@ -51,6 +51,8 @@ def fixture():
     if 'd' in _FIX:
         return _FIX['d']
     base = pathlib.Path(tempfile.mkdtemp(prefix='c19fix_', dir=scratch_root()))
+    from pbt.core import remove_at_exit
+    remove_at_exit(base)
     rs = {'tree': TREE, 'n_genes': 20, 'cells_per': 10, 'seed': 17, 'dtype': 'int32', 'enc': 'csr', 'shuffle': True,
           'family': 'nested'}
     pipeline.write_ref_h5ad(base / 'ref.h5ad', rs)
@@ -251,7 +253,8 @@ class History(RuleBasedStateMachine):
             self._check_scratch(sb, what, strict=not raised)
 
     @precondition(lambda self: self.n_invalid < 1)
-    @rule(kind=st.sampled_from(['negative', 'bad_normalization', 'missing_markers']))
+    @rule(kind=st.sampled_from(['negative', 'bad_normalization', 'missing_markers',
+                                'hdf5_dir_missing', 'hdf5_is_dir', 'json_dir_missing', 'csv_dir_missing']))
     def run_invalid_mapping(self, kind):
         self.n_invalid += 1
         self.step += 1
@@ -270,6 +273,15 @@ class History(RuleBasedStateMachine):
         if kind == 'missing_markers':
             paths['markers'] = self.ind / 'no_such_markers.json'
         cfg = dict(a['cfg'], tmp_name=str(self.scratch))
+        # destinations that cannot be written (the failure then happens while the outputs are being written)
+        if kind == 'hdf5_dir_missing':
+            cfg['hdf5_override'] = str(self.out / f'{tag}_no_such_dir' / 'out.h5')
+        elif kind == 'hdf5_is_dir':
+            cfg['hdf5_override'] = str(self.ind)
+        elif kind == 'json_dir_missing':
+            cfg['json_override'] = str(self.out / f'{tag}_no_such_dir' / 'out.json')
+        elif kind == 'csv_dir_missing':
+            cfg['csv_override'] = str(self.out / f'{tag}_no_such_dir' / 'out.csv')
         o = mapping.run(self.out, paths, cfg, out_prefix=tag)
         if o.ok:
             self._fail('invalid_input_mapped', {'step': what})
